@@ -29,8 +29,10 @@ from .. import common as C
 from . import _an
 
 PROP = "C13"
-GEN_REGIONS = ["Ctor", "Attrs", "KernelHeap"]
+GEN_REGIONS = ["Ctor", "Attrs", "KernelHeap", "ResultQueries"]
 THEOREMS = {
+    # compute() zero-fills non-finite statistics: over strict partial reals every stored XX, YY, XY, S12, S2, M2 is finite (translated each run)
+    "SpecKitV.Props.ResultQueriesGen": ["gen_compute_sanitised", "gen_compute_assemble_eq_model"],
     "SpecKitV.Lemmas.AnalyzerGlue": ["Model.channelOf_transpose", "Model.sanitise_idem", "Model.sanitise_eq_zero_fill",
                                      "Model.ctor_copy_no_foreign_write", "Model.ctor_copy_no_write", "Model.ctor_inplace_writes_caller",
                                      "Model.ctor_inplace_spares_copied", "Model.heapRun_written_ge"],
